@@ -1233,6 +1233,20 @@ func (fx *fctx) callDynamic(st *State, fv *Value, what string, ce *ast.CallExpr)
 	args := fx.evalArgs(st, ce, nil, sig)
 	fx.preCallHooks(st, ce, args)
 	fx.beforeCall(st, nil, args, ce)
+	// host code must not receive pointers into a protected slice (the operand stack): the slot is reused by later
+	// instructions, and the protection argument is that nobody else can reach it
+	if len(fx.protected) > 0 && !fx.spec {
+		for i, a := range args {
+			if a != nil && a.Raw && a.Tm != nil {
+				g := ts.False()
+				if a.RawC != nil {
+					g = ts.Not(a.RawC)
+				}
+				g = ts.Or(ts.Eq(a.Tm, ts.Int(0)), g)
+				fx.assert(st, "raw-alias", fmt.Sprintf("arg%d", i), g, ce, nil, "no pointer into a protected slice (the operand stack) is handed to a host callback")
+			}
+		}
+	}
 	e.Assumptions["host callback ("+what+") returns normally and respects type invariants"] = true
 	preCB := st.clone()
 	e.havocAll(st)
